@@ -37,10 +37,20 @@ def evaluate(mdir, args):
         vroot = os.path.join(d, "verif"); os.makedirs(vroot)
         shutil.copy(os.path.join(ROOT, "known_findings.json"), vroot)
         alarms = {}
-        for pid in CHECKS:
-            c = subprocess.run([os.path.join(ROOT, "bin/utlsverify"), "-prop", pid, "-tier", "quick", "-root", vroot], env=dict(ENV, VERIF_REPO=repo), capture_output=True, text=True)
-            if c.returncode != 0:
-                alarms[pid] = [l.strip()[:300] for l in c.stdout.splitlines() if l.strip().startswith("violation") or "UNDECIDED" in l][:4]
+        c = subprocess.run([os.path.join(ROOT, "bin/utlsverify"), "-prop", "all", "-tier", "quick", "-root", vroot], env=dict(ENV, VERIF_REPO=repo), capture_output=True, text=True)
+        cur = []
+        seen = 0
+        for l in c.stdout.splitlines():
+            if l.startswith("RESULT "):
+                _, pid, rc = l.split()
+                seen += 1
+                if rc != "0":
+                    alarms[pid] = [x.strip()[:300] for x in cur if x.strip().startswith("violation") or "UNDECIDED" in x][:4]
+                cur = []
+            else:
+                cur.append(l)
+        if seen < len(CHECKS):
+            alarms["LOAD"] = [c.stdout[-300:]]
         res["status"] = "evaluated"; res["alarms"] = alarms
         return res
     finally:
